@@ -177,6 +177,22 @@ def rule_option_reach(col, facts):
     col.floor(R, "backend x getter obligations", n, 8)
 
 
+def const_byte_strings(e, out=None):
+    """Constant byte strings (`b"..."`) inside an expression tree."""
+    if out is None:
+        out = []
+    if isinstance(e, tuple):
+        if len(e) == 2 and e[0] == "k" and isinstance(e[1], dict) and isinstance(e[1].get("ref"), list) and all(isinstance(x, int) for x in e[1]["ref"]):
+            out.append(e[1]["ref"])
+        for x in e:
+            const_byte_strings(x, out)
+    return out
+
+
+def from_special_strings(f):
+    return False
+
+
 def rule_punct(col, facts):
     R = "ORG-punct"
     nlit = ndp = 0
@@ -204,6 +220,14 @@ def rule_punct(col, facts):
                     if e[0] == "call" and last_seg(e[1]) == "decimal_point":
                         dp_stores += 1
             t = b["t"]
+            # constant byte strings copied into the output (`copy_from_slice(b"1.0")`) are stores of literals too
+            if t["k"] == "call" and last_seg(callee_name(t["f"])) in ("copy_from_slice", "copy_to_dst", "copy_nonoverlapping", "clone_from_slice", "extend_from_slice") and not from_special_strings(f):
+                for a_ in t["a"]:
+                    for bs in const_byte_strings(op_expr(f, a_)):
+                        nlit += 1
+                        badb = [x for x in bs if x not in LITERALS_OK]
+                        col.check(R, "%s:copied-literal:%s" % (base, "".join(chr(x) for x in bs)[:8]), not badb,
+                                  "the constant byte string %r is copied into the output: it contains %r, punctuation must come from the options (a custom decimal point is ignored)" % (bytes(bs), "".join(chr(x) for x in badb)), f.loc(b["ts"]))
             if t["k"] == "call" and last_seg(callee_name(t["f"])) == "fill" and len(t["a"]) == 2 and t["a"][1][0] == "k":
                 v = t["a"][1][1].get("v")
                 nlit += 1
